@@ -667,14 +667,64 @@ func (nz *Normaliser) pureExpr(e ast.Expr) bool {
 	return pure
 }
 
-func (nz *Normaliser) volatileExpr(e ast.Expr) bool {
-	v := false
+// volatileExpr: the expression reads the state of an object (`s.Len()`, `s.Has(x)`, `b.Bytes()`) that the statements
+// after its definition may change (the object is the receiver of a call that is not side-effect free, an argument of
+// such a call, assigned to, or its address is taken).
+func (nz *Normaliser) volatileExpr(e ast.Expr, rest []ast.Stmt) bool {
+	roots := map[string]bool{}
 	ast.Inspect(e, func(n ast.Node) bool {
 		if c, ok := n.(*ast.CallExpr); ok && nz.Volatile[lastName(calleeText(c))] {
-			v = true
+			if sel, ok := c.Fun.(*ast.SelectorExpr); ok {
+				if r := rootIdent(sel.X); r != "" {
+					roots[r] = true
+				} else {
+					roots["?"] = true
+				}
+			}
 		}
-		return !v
+		return true
 	})
+	if len(roots) == 0 {
+		return false
+	}
+	if roots["?"] {
+		return true
+	}
+	v := false
+	for _, s := range rest {
+		ast.Inspect(s, func(n ast.Node) bool {
+			switch x := n.(type) {
+			case *ast.CallExpr:
+				if nz.isPureCallee(calleeText(x)) {
+					return true
+				}
+				if sel, ok := x.Fun.(*ast.SelectorExpr); ok && roots[rootIdent(sel.X)] {
+					v = true
+				}
+				for _, a := range x.Args {
+					if roots[rootIdent(a)] {
+						v = true
+					}
+					if u, ok := a.(*ast.UnaryExpr); ok && u.Op == token.AND && roots[rootIdent(u.X)] {
+						v = true
+					}
+				}
+			case *ast.AssignStmt:
+				for _, l := range x.Lhs {
+					if roots[rootIdent(l)] {
+						v = true
+					}
+				}
+			case *ast.FuncLit, *ast.GoStmt, *ast.DeferStmt:
+				for r := range roots {
+					if usesIdent(x.(ast.Node), r) {
+						v = true
+					}
+				}
+			}
+			return !v
+		})
+	}
 	return v
 }
 
@@ -777,7 +827,7 @@ func (nz *Normaliser) inlineLocals(fd *ast.FuncDecl) bool {
 			if ok && !done && as.Tok == token.DEFINE && len(as.Lhs) == 1 && len(as.Rhs) == 1 {
 				id, isId := as.Lhs[0].(*ast.Ident)
 				if isId && id.Name != "_" && assigns[id.Name] == 0 && !blocked[id.Name] && !params[id.Name] && !bound[id.Name] && !redefined(list[i+1:], id.Name) &&
-					nz.pureExpr(as.Rhs[0]) && !nz.volatileExpr(as.Rhs[0]) && stable(as.Rhs[0]) && shareable(fd.Body, id.Name, as.Rhs[0]) && !usesIdent(as.Rhs[0], id.Name) {
+					nz.pureExpr(as.Rhs[0]) && !nz.volatileExpr(as.Rhs[0], list[i+1:]) && stable(as.Rhs[0]) && shareable(fd.Body, id.Name, as.Rhs[0]) && !usesIdent(as.Rhs[0], id.Name) {
 					for _, rest := range list[i+1:] {
 						substIdent(rest, id.Name, as.Rhs[0])
 					}
